@@ -23,9 +23,25 @@ for k in keys:
 for a in args:
     if ':' in a:
         jobs.append(tuple(a.split(':')))
+# lanes are shared by every invocation on this machine: each is claimed with a lock file for the whole run
+import fcntl, time
 lanes = queue.Queue()
-for i in range(nj):
-    lanes.put(20 + i)
+_held = []
+os.makedirs('/var/tmp/lpverif', exist_ok=True)
+while len(_held) < nj:
+    for i in range(60, 100):
+        f = open('/var/tmp/lpverif/lane-%d.lock' % i, 'w')
+        try:
+            fcntl.flock(f, fcntl.LOCK_EX | fcntl.LOCK_NB)
+        except OSError:
+            f.close()
+            continue
+        _held.append(f)
+        lanes.put(i)
+        if len(_held) >= nj:
+            break
+    else:
+        time.sleep(5)
 
 def run(job):
     k, pid = job
